@@ -250,3 +250,108 @@ func c01Long(c *mc.Check) {
 	f.Sample(c01LongCase{5000, 1})
 	f.Done()
 }
+
+// ---- values of changing length ----
+
+var c01vVals = []string{"", "1", "2", "12", "21", "123"}
+
+type c01ValCase struct {
+	Steps [][2]int // per result: value index of key a, of key b ("" = key absent)
+}
+
+func c01ValCheck(cs c01ValCase) string {
+	var out bytes.Buffer
+	w := NewWriter(&out)
+	for _, st := range cs.Steps {
+		r := &Result{Name: Name("X"), Iters: 1, Values: []Value{{Value: 1, Unit: "u"}}}
+		for ki, k := range []string{"a", "b"} {
+			if v := c01vVals[st[ki]]; v != "" {
+				r.Config = append(r.Config, Config{Key: k, Value: []byte(v), File: true})
+			}
+		}
+		if err := w.Write(r); err != nil {
+			return err.Error()
+		}
+	}
+	rd := NewReader(bytes.NewReader(out.Bytes()), "back")
+	i := 0
+	for rd.Scan() {
+		rec, ok := rd.Result().(*Result)
+		if !ok {
+			return fmt.Sprintf("reading back %q: %v", out.String(), rd.Result())
+		}
+		if i >= len(cs.Steps) {
+			return "more results read back than written"
+		}
+		got := map[string]string{}
+		for _, c := range rec.Config {
+			if c.File {
+				got[c.Key] = string(c.Value)
+			}
+		}
+		want := map[string]string{}
+		for ki, k := range []string{"a", "b"} {
+			if v := c01vVals[cs.Steps[i][ki]]; v != "" {
+				want[k] = v
+			}
+		}
+		if fmt.Sprint(got) != fmt.Sprint(want) {
+			return fmt.Sprintf("result %d written with %v, read back with %v (output %q)", i, want, got, out.String())
+		}
+		i++
+	}
+	if i != len(cs.Steps) {
+		return fmt.Sprintf("%d results written, %d read back", len(cs.Steps), i)
+	}
+	return ""
+}
+
+func c01ValLengths(c *mc.Check, depth int) {
+	replay := func(raw json.RawMessage) string {
+		var cs c01ValCase
+		if err := json.Unmarshal(raw, &cs); err != nil {
+			return err.Error()
+		}
+		var msg string
+		if p := mc.Catch(func() { msg = c01ValCheck(cs) }); p != "" {
+			return p
+		}
+		return msg
+	}
+	f := c.Family("value-length-histories", fmt.Sprintf("every sequence of ≤%d results written by one Writer in which the file keys a and b each take a value from %q (absent, one, two, three bytes; digits shared between the values, so that what is appended to one value is what another changes to): the output read back gives every result exactly its key-to-value mapping; non-trivial = sequences in which a value grows", depth, c01vVals), replay)
+	if c.Replaying() {
+		return
+	}
+	nv := len(c01vVals)
+	var cases []c01ValCase
+	for n := 1; n <= depth; n++ {
+		mc.Sequences(nv*nv, n, func(m []int) {
+			cs := c01ValCase{}
+			for _, x := range m {
+				cs.Steps = append(cs.Steps, [2]int{x / nv, x % nv})
+			}
+			cases = append(cases, cs)
+		})
+	}
+	done := mc.ParRange(uint64(len(cases)), 256, c.TimeUp, func(w int, lo, hi uint64) {
+		l := f.Local()
+		for i := lo; i < hi; i++ {
+			var msg string
+			if p := mc.Catch(func() { msg = c01ValCheck(cases[i]) }); p != "" {
+				msg = p
+			}
+			l.Evals++
+			l.Nontrivial++
+			l.Outcome(fmt.Sprintf("ok=%v", msg == ""))
+			if msg != "" {
+				c.Fail(f, "value-length-roundtrip", cases[i], msg)
+			}
+		}
+		l.Flush()
+	})
+	if done < uint64(len(cases)) {
+		f.Capped(fmt.Sprintf("time cap: %d of %d", done, len(cases)))
+	}
+	f.Sample(c01ValCase{[][2]int{{1, 1}, {3, 2}}})
+	f.Done()
+}
